@@ -86,6 +86,9 @@ def run(prog, rep, tier):
             okcl = t.args[2].place is not None and any(d[2] == 'assign' and d[3].rv.r == 'aggregate' and d[3].rv.j.get('closure') == seeded[0][0].defpath for d in kg.defs.get(t.args[2].place[0], [])) if seeded else False
             oo = origins(kg, [t.args[0].place[0]])
             okseedarg = any(kg.blocks[x].term.cmethod == 'get_one' and any(const_bytes_of(kg, a) == b'seed' for a in kg.blocks[x].term.args) for x in oo.calls)
+            # ... and it is that option as given: nothing (filter, and_then, a default) decides in between that some seeds are "no seed"
+            okseedarg = okseedarg and t.args[0].place is not None and must_derive(
+                kg, t.args[0].place[0], lambda k, ob, bb: k == 'call' and ob.cmethod == 'get_one' and any(const_bytes_of(kg, a) == b'seed' for a in ob.args))
             okuse = gk[0].term.args[0].place is not None and must_derive(kg, gk[0].term.args[0].place[0], lambda k, ob, bb: k == 'call' and bb == moe[0].idx)
             ok = okos and okcl and okseedarg and okuse
         elif len(gk) == 1 and seeded and seeded[0][0] is kg:
@@ -95,7 +98,8 @@ def run(prog, rep, tier):
             sel = None
             for sbb, si in arm_of_enum_switch(prog, kg, adt='std::option::Option'):
                 oo = origins(kg, [si['place'][0]])
-                if any(kg.blocks[x].term.cmethod == 'get_one' and any(const_bytes_of(kg, a) == b'seed' for a in kg.blocks[x].term.args) for x in oo.calls):
+                if any(kg.blocks[x].term.cmethod == 'get_one' and any(const_bytes_of(kg, a) == b'seed' for a in kg.blocks[x].term.args) for x in oo.calls) and \
+                        must_derive(kg, si['place'][0], lambda k, ob, bb: k == 'call' and ob.cmethod == 'get_one' and any(const_bytes_of(kg, a) == b'seed' for a in ob.args)):
                     sel = (sbb, enum_arm_target(si, 'Some'), enum_arm_target(si, 'None'))
             ok = False
             if sel and len(osr) == 1 and sel[1] is not None and sel[2] is not None and sel[1] != sel[2]:
